@@ -41,6 +41,12 @@ Fixpoint m_step_loop (cfg : mcfg) (fl : Z) (k : nat) (s : mars) (out : list (lis
                                     ++ (if flag fl 4 then [[11] ++ m_dump (mc_M cfg) s'] else []))
   end.
 
+Definition m_stepped (cfg : mcfg) (bc : bcase) (s : mars) (out : list (list Z)) : list (list Z) :=
+  let fl := bc_flags bc in
+  let '(s1, out1) := m_step_loop cfg fl (bc_maxsteps bc) s out in
+  out1 ++ [[5] ++ m_observe (mc_M cfg) (flag fl 2) s1]
+       ++ (if flag fl 3 then [[6] ++ m_dump (mc_M cfg) s1] else []).
+
 Definition spec_battle (l : list Z) : list (list Z) :=
   match rd_bcase l with
   | None => [[0]]
@@ -49,9 +55,9 @@ Definition spec_battle (l : list Z) : list (list Z) :=
     let fl := bc_flags bc in
     let s0 := mkM empty_core (map (fun w => mkMW (bw_code w) (bw_start w) MAdded []) (bc_ws bc)) 0%N in
     let '(s, out) := m_spawn_all cfg s0 0 (bc_ws bc) [] in
-    let '(s1, out1) := m_step_loop cfg fl (bc_maxsteps bc) s out in
-    let out2 := out1 ++ [[5] ++ m_observe (mc_M cfg) (flag fl 2) s1]
-                     ++ (if flag fl 3 then [[6] ++ m_dump (mc_M cfg) s1] else []) in
+    let out1 := m_stepped cfg bc s out in
+    (* a battle after Reset and re-spawn is the battle on a fresh simulator *)
+    let out2 := if flag fl 6 then out1 ++ m_stepped cfg bc s ([[12]] ++ out) else out1 in
     if flag fl 1 then
       match m_ws s with
       | [] => out2 ++ [[7; 1]]
